@@ -371,7 +371,7 @@ func (c *child) kill() {
 	c.cmd.Wait()
 }
 
-// ask sends one line and waits for one result line (watchdog: 30 s).
+// ask sends one line and waits for one result line (watchdog: 15 s; the slowest line on the unchanged tree takes a few milliseconds).
 func (c *child) ask(line string) (string, bool) {
 	type ans struct {
 		s   string
@@ -402,7 +402,7 @@ func (c *child) ask(line string) (string, bool) {
 			return "crash:" + strings.ReplaceAll(first, " ", "_"), false
 		}
 		return a.s, true
-	case <-time.After(30 * time.Second):
+	case <-time.After(15 * time.Second):
 		c.kill()
 		return "timeout", false
 	}
